@@ -359,6 +359,9 @@ fn vm_endlinechar_command(rng: &mut Rng, table: &Table, out: &mut String) {
         4 => 32,
         _ => rng.below(128) as i32,
     };
+    // an end-line character Q/W/Y/V after an escape character would spell a reserved command
+    // (so would their ^^ partners 0x11 0x17 0x19 0x16)
+    let v = if matches!(v, 81 | 87 | 89 | 86 | 17 | 23 | 25 | 22) { 75 } else { v };
     out.push_str(&format!("\\W={}\\Y", v));
 }
 
